@@ -1,6 +1,7 @@
 """C11 - decoding device data always terminates, whatever the bytes."""
 import tracemalloc
 
+PYOPT = 2  # every second shard also runs in an interpreter started with -O
 LEVEL = "exploration"
 BASE, SLOPE = 10_000, 1_024
 RULE = (
